@@ -374,6 +374,9 @@ def _c16(tier):
         dict(name='model-machine', leg=model_machine.leg_model, units=U(tier, 64, 400), opts=dict(checks=['C16'], data_faults=False, examples=U(tier, 400, 1000), steps=50)),
         dict(name='in-situ-solver-histories', leg='swarm', units=U(tier, 400), opts=dict(per_unit=8, oracles=['insitu'], probes=('c16',), profile=P(
             p_bounds=0.5, p_restarts=0.5, p_growing=0.0, p_regression=0.6, maxfun_choices=BUDGETS_BIG, p_buggify=0.9, deterministic=True))),
+        # the same identities while points carry different numbers of samples (seeded change C16d: rows weighted by sqrt(nsamples))
+        dict(name='in-situ-solver-histories-averaged', leg='swarm', units=U(tier, 150), opts=dict(per_unit=8, oracles=['insitu'], probes=('c16',), salt='avg', profile=P(
+            p_bounds=0.5, p_restarts=0.5, p_growing=0.0, p_regression=0.8, maxfun_choices=BUDGETS_BIG, p_buggify=0.7, p_nsamples=1.0, p_bad_nsamples=0.0, p_noise=0.6, p_nanregion=0.0))),
     ]
 
 
